@@ -1,5 +1,5 @@
 """C20 — repr never fails and never misstates shape, dtype or data."""
-import datetime, itertools, math
+import datetime, itertools, math, random
 from values import Interner, dtype_wire, err_class, storage
 from extract_consts import Foo, Bar, Baz
 
@@ -11,7 +11,9 @@ RULE = ("vectors: every dtype family (int, float incl. nan/±inf/overflowed/-0.0
         "{None,0,1,4,6,13} with random column kinds and names (repeats, reserved words, spaces, case, empty, None), plus random "
         "tables. The Lean model (preview, dtype dispatch of the cell formatter, column truncation, header rows, footer) renders "
         "the same object from Python's own per-cell texts and the compiled judge compares it with repr() line by line modulo "
-        "spaces: no exception, object unchanged, footer exact, number of body lines, ellipsis position, cells of the first/last k "
+        "spaces (gap analysis: dtypes declared or inherited rather than inferred - nullable without a None, object/float over ints, as_row -, "
+        "cells equal across types side by side, objects shown before and changed since (name, cell, row budget), repr twice, lengths "
+        "1000+, widths 21..101): no exception, object unchanged, footer exact, number of body lines, ellipsis position, cells of the first/last k "
         "rows, names row, dtype row. non-trivial = truncated rows or columns, or a None/NaN/inf cell, or non-uniform dtypes, or a "
         "quoted / empty / repeated name, or an empty object")
 ASSUMPTIONS = ["per-cell texts (str, repr, f'{v:g}', f'{v:.1f}', isoformat), name quoting (_needs_quote), _sanitize_user_name and "
@@ -60,7 +62,16 @@ VALS = {
     "c1": 1j, "c2": 2 + 0j, "cnan": complex(NAN, INF),
     "y1": b"x", "y2": b"",
     "tup": (1, 2), "foo": _FOO, "bar": _BAR,
+    # values that are equal (and hash-equal) across types, for the gap families only
+    "i1": 1, "f0": 0.0, "c1r": complex(1, 0), "c0": 0j, "sTrue": "True", "s1.0": "1.0",
 }
+# pools of the gap families (kept apart from POOLS so that the classic streams are unchanged)
+POOLS2 = {
+    "eqmix": ["i1", "f1", "T", "c1r", "s1", "i0", "F", "f0", "f-0", "c0", "sTrue", "s1.0"],   # object column: 1 == 1.0 == True == (1+0j)
+    "floateq": ["f1", "i1", "T", "f0", "f-0", "i0", "F"],                                       # float column with un-coerced equals
+    "inteq": ["i1", "T", "i0", "F", "i7"],                                                      # int column holding bools
+}
+DECLS = ["nullable", "object", "float", "sliced", "asrow"]
 POOLS = {
     "int": ["i0", "i-1", "i7", "iBig", "iNeg"],
     "float": ["f1", "f2.5", "fnan", "finf", "f-inf", "fover", "fmax", "ftiny", "f-0", "f1e22", "f1e16", "f123", "f.1", "f-2.25", "f1e15"],
@@ -193,6 +204,61 @@ def _derived(spec):
     return w
 
 
+def _generate_gaps(rng, thorough):
+    reps = 1 if not thorough else 6
+    kinds = ["int", "float", "bool", "str", "date", "datetime", "complex", "bytes", "object", "floatmix"]
+    for _rep in range(reps):
+        # (a) declared / inherited dtypes: nullable without a None, object or float over ints, as_row — vectors and table columns
+        for decl in DECLS:
+            for kind in kinds:
+                for n in (0, 1, 3, 14):
+                    distinct = rng.random() < 0.5
+                    col = {"name": rng.choice(NAMES), "vals": _column(rng, kind, n, False, distinct), "decl": decl}
+                    yield {"fam": "vector", "rows": rng.choice([None, None, 4]), "cols": [col], "twice": True}
+            for w in (1, 3, 11):
+                for n in (0, 2, 14):
+                    cols = [{"name": f"c{c}", "vals": _column(rng, rng.choice(kinds[:5]) if w > 1 else "int", n, False, True),
+                             "decl": decl if (c % 2 == 0 or w == 1) else None} for c in range(w)]
+                    yield {"fam": "table", "rows": None, "override": None, "cols": cols, "twice": True}
+            # a homogeneous-looking table whose columns differ only in DECLARED nullability (shown and hidden columns)
+            for w, odd in ((2, 1), (3, 0), (12, 6), (12, 11)):
+                cols = [{"name": f"c{c}", "vals": [f"i={r}" for r in range(3)], "decl": ("nullable" if c == odd else None)} for c in range(w)]
+                yield {"fam": "table", "rows": None, "override": None, "cols": cols}
+        # (b) cells equal across types side by side (1, 1.0, True, (1+0j), '1'; 0, 0.0, -0.0, False): every cell shows its own text
+        for kind in POOLS2:
+            for n in (2, 5, 12, 13, 30):
+                for nulls in (False, True):
+                    vals = [("None" if nulls and rng.random() < 0.2 else rng.choice(POOLS2[kind])) for _ in range(n)]
+                    yield {"fam": "vector", "rows": None, "cols": [{"name": rng.choice(NAMES), "vals": vals}], "twice": True}
+            yield {"fam": "vector", "rows": None, "cols": [{"name": None, "vals": list(POOLS2[kind])}]}
+            yield {"fam": "vector", "rows": None, "cols": [{"name": None, "vals": list(reversed(POOLS2[kind]))}]}
+            yield {"fam": "table", "rows": None, "override": None,
+                   "cols": [{"name": "a", "vals": list(POOLS2[kind])}, {"name": "b", "vals": list(reversed(POOLS2[kind]))}]}
+        # (c) an object that was shown before and changed since (name, a cell, the row budget): no stale text
+        for kind in ("int", "float", "str", "object", "date"):
+            for fam in ("vector", "table"):
+                for n in (3, 14):
+                    base = {"fam": fam, "rows": None, "cols": [{"name": "x", "vals": _column(rng, kind, n, False, True)}], "twice": True}
+                    if fam == "table":
+                        base["override"] = None
+                        base["cols"].append({"name": "y", "vals": [f"i={r}" for r in range(n)]})
+                    yield dict(base, warm=["name", rng.choice(["renamed", "a b", None, "sum"])])
+                    yield dict(base, warm=["cell", rng.randrange(n), rng.choice(POOLS[kind])])
+                    yield dict(base, warm=["rows", rng.choice([2, 4, 100])])
+                    yield dict(base, rows=4, warm=["rows", None])
+        # (d) sizes beyond the classic ones: lengths 1000+, widths 21..120, row budgets beyond the length
+        for n in (999, 1000, 1001, 1500):
+            kind = rng.choice(["int", "float", "str"])
+            yield {"fam": "vector", "rows": rng.choice([None, 12, 2000]), "cols": [{"name": "x", "vals": _column(rng, kind, n, False, True)}]}
+        yield {"fam": "table", "rows": None, "override": None,
+               "cols": [{"name": "a", "vals": [f"i={r}" for r in range(1001)]}, {"name": "b", "vals": [f"s={r}" for r in range(1001)]}]}
+        for w in (21, 25, 40, 101):
+            n = rng.choice([0, 2, 13])
+            ks = [rng.choice(kinds[:5])] * w if rng.random() < 0.5 else [rng.choice(kinds) for _ in range(w)]
+            yield {"fam": "table", "rows": None, "override": rng.choice([None, 4]),
+                   "cols": [{"name": rng.choice(NAMES + [f"c{c}"] * 10), "vals": _column(rng, kd, n, rng.random() < 0.3, True)} for c, kd in enumerate(ks)]}
+
+
 def generate(rng, tier):
     thorough = tier == "thorough"
     for expr in DERIVED:
@@ -211,6 +277,8 @@ def generate(rng, tier):
     for name in NAMES:
         for n in (1, 14):
             yield {"fam": "vector", "rows": None, "cols": [{"name": name, "vals": [f"i={r}" for r in range(n)]}]}
+    # 2b. (gap analysis) dimensions the other families keep fixed; own generator, seeded from rng's state without drawing from it
+    yield from _generate_gaps(random.Random(hash(rng.getstate()[1][:8])), thorough)
     # 3. tables: width x length x global setting x per-table override
     for rep in range(3 if not thorough else 24):
         for w in WIDTHS:
@@ -366,9 +434,44 @@ def _vec_state(I, v):
 OTHER_NAMES = ["Foo", "Bar", "Baz"]
 
 
+def _mkvec(cs):
+    """a column; `decl` = a dtype that is DECLARED (or inherited) rather than inferred from the cells: wider than its contents"""
+    from serif import Vector
+    from serif.typing import DataType
+    vals, name, decl = [decode(c) for c in cs["vals"]], decode_name(cs["name"]), cs.get("decl")
+    if decl is None:
+        return Vector(vals, name=name)
+    if decl == "asrow":
+        return Vector(vals, name=name, as_row=True)
+    if decl == "sliced":
+        # a None that is sliced away again: the vector stays nullable (public route to 'nullable without a None')
+        v = Vector(vals + [None], name=name)[0:len(vals)]
+        if v.name != name:
+            v.name = name
+        return v
+    inferred = Vector(vals).schema()
+    if decl == "object" or inferred is None:
+        return Vector(vals, name=name, dtype=DataType(object, nullable=any(x is None for x in vals)))
+    if decl == "float" and inferred.kind in (int, bool):
+        return Vector(vals, name=name, dtype=DataType(float, nullable=inferred.nullable))
+    return Vector(vals, name=name, dtype=DataType(inferred.kind, nullable=True))
+
+
+def _warm(obj, warm, is_table):
+    """repr once, then change the object through its public API: the judged repr must describe the object as it is NOW"""
+    repr(obj)
+    col = obj.cols()[0] if is_table else obj
+    if warm[0] == "name":
+        col.name = warm[1]
+    elif warm[0] == "cell" and len(col) > 0:
+        col[warm[1] % len(col)] = decode(warm[2])
+    elif warm[0] == "rows":
+        pass    # the row budget is changed by execute (between the two reprs)
+
+
 def _build(spec):
     from serif import Vector, Table
-    cols = [Vector([decode(c) for c in cs["vals"]], name=decode_name(cs["name"])) for cs in spec["cols"]]
+    cols = [_mkvec(cs) for cs in spec["cols"]]
     if spec["fam"] == "vector":
         return cols[0]
     t = Table(cols)
@@ -409,6 +512,14 @@ def execute(spec):
                     "fp": str(_try(obj.fingerprint)), "override": getattr(obj, "_repr_rows", None), "global": _globals(display)}
         return dict(_vec_state(I, obj), **{"global": _globals(display), "len": len(obj)})
 
+    if spec.get("warm"):
+        try:
+            if spec["warm"][0] == "rows":
+                set_repr_rows(spec["warm"][1])
+            _warm(obj, spec["warm"], is_table)
+        except Exception as e:
+            set_repr_rows(None)
+            return {"skip": f"the warm-up step raised {type(e).__name__}"}
     case = {"rows": spec["rows"], "override": spec.get("override"), "other_names": OTHER_NAMES, "unpinned": unpinned,
             "cols": [col_wire(c) for c in (obj.cols() if is_table else [obj])]}
     try:
@@ -424,6 +535,10 @@ def execute(spec):
                 impl = {"err": "other:not-a-str"}
             else:
                 impl = {"lines": s.split("\n"), "before": before, "after": after}
+                if spec.get("twice"):
+                    s2 = _try(lambda: repr(obj))
+                    if s2 != s:
+                        impl["header_fail"] = "(judged in Python) repr(x) called twice on the unchanged object gives two different results"
                 if unpinned:
                     # headers show the stored names: a non-string name is shown by its repr
                     # (a falsy name such as 0 or False is treated as "unnamed" throughout display.py: not judged)
